@@ -22,10 +22,16 @@ SeqLenAt(s, i) ==
       ELSE IF b = 244 THEN (IF c(1) /\ c(2) /\ c(3) /\ s[i + 1] <= 143 THEN 4 ELSE 0)
       ELSE 0
 
-RECURSIVE ValidFrom(_, _)
-ValidFrom(s, i) ==
-  IF i > Len(s) THEN TRUE
-  ELSE LET k == SeqLenAt(s, i) IN IF k = 0 THEN FALSE ELSE ValidFrom(s, i + k)
+\* validity is local: every byte is ASCII, starts a well-formed sequence, or is a continuation byte
+\* covered by a well-formed sequence starting 1..3 positions before it
+Covered(s, i) ==
+  \E back \in 1..3 : i - back >= 1 /\ ~Cont(s[i - back]) /\ SeqLenAt(s, i - back) > back
+                       /\ \A m \in 1..(back - 1) : Cont(s[i - m])
+ValidFrom(s, from) ==
+  \A i \in from..Len(s) :
+    IF s[i] < 128 THEN TRUE
+    ELSE IF Cont(s[i]) THEN Covered(s, i)
+    ELSE SeqLenAt(s, i) > 0
 
 IsAscii(s) == \A k \in 1..Len(s) : s[k] < 128
 Valid(s) == IsAscii(s) \/ ValidFrom(s, 1)
